@@ -29,7 +29,13 @@ RULE = ('A case is a generated audit trail on the in-memory ZooKeeper: 2-7 '
         'Module-level containers of the modules under test are reset to '
         'their import-time value at the start of every case and whenever '
         'the process is restarted. The faults below are enumerated on the '
-        'LAST pass. One pass = one iteration of sproc.trace\'s cleanup loop: it '
+        'LAST pass. In about half of the cases every pass is the real driver, '
+        'the click command `treadmill.sproc.trace cleanup --no-lock` given '
+        'all its options (batch sizes, expiries, history max counts pairwise '
+        'distinct per kind, prune thresholds, interval) and stopped at its '
+        'sleep; in the others the harness makes the same calls itself. The '
+        'oracle always uses the configured value of each record kind. '
+        'One pass = one iteration of sproc.trace\'s cleanup loop: it '
         '(cleanup_trace, cleanup_finished, cleanup_trace_history, '
         'cleanup_finished_history, cleanup_server_trace, '
         'cleanup_server_trace_history; real sqlite3/zlib) is run once '
@@ -63,8 +69,14 @@ ASSUMPTIONS = [
     'on the virtual clock (fixed 100 ms per attempt)',
     'virtual clock replaces treadmill.trace.app.zk.time; node mtimes come '
     'from the same clock',
-    'prune_trace_evictions / prune_trace_service_events (which delete live '
-    'events on purpose) are not part of the archiving run',
+    'prune_trace_evictions / prune_trace_service_events delete live events '
+    'on purpose and are not archiving: the direct-call passes leave them '
+    'out, the passes through the real cleanup command give them thresholds '
+    '(1000-1009 / 2000-2009) no generated instance reaches',
+    'driver passes: treadmill.sproc.trace cleanup --no-lock is invoked '
+    'through click with every option on its command line; '
+    'context.GLOBAL.zk.conn is the fake session; the module\'s time is the '
+    'virtual clock and its sleep(interval) ends the pass',
     'event payloads (node values under /trace) are not archived by design; '
     'retrievable means the event name is returned by download_batch',
     'a record whose snapshot was uploaded during the run(s) under check and '
@@ -201,24 +213,50 @@ def _steps():
     return st.lists(group, min_size=0, max_size=2)
 
 
-def strategy(tier):
-    expiry = st.sampled_from([0, 1, 30, 300, 3600])
-    params = st.fixed_dictionaries({
-        'trace_batch': st.integers(1, 7),
-        'finished_batch': st.integers(1, 7),
-        'trace_expire': expiry,
-        'finished_expire': expiry,
-        'trace_hist_max': st.integers(1, 4),
-        'finished_hist_max': st.integers(1, 4),
-    })
-    return st.fixed_dictionaries({
-        'params': params,
-        'order_seed': st.integers(0, 3),
-        'instances': _instances(),
-        'servers': _servers(),
-        'history': _history(),
-        'steps': _steps(),
-    })
+EXPIRIES = [0, 1, 30, 300, 3600]
+
+
+@st.composite
+def _params(draw, driver):
+    """Batch sizes, expiries, history max counts. For passes through the
+    real command line every option value is distinct from its neighbours of
+    the same kind, so that wiring one option to another's place shows."""
+    def pair(values):
+        if driver:
+            return draw(st.lists(values, min_size=2, max_size=2,
+                                 unique=True))
+        return [draw(values), draw(values)]
+
+    batches = pair(st.integers(1, 7))
+    expiries = pair(st.sampled_from(EXPIRIES))
+    maxes = pair(st.integers(1, 4))
+    par = {
+        'trace_batch': batches[0], 'finished_batch': batches[1],
+        'trace_expire': expiries[0], 'finished_expire': expiries[1],
+        'trace_hist_max': maxes[0], 'finished_hist_max': maxes[1],
+    }
+    if driver:
+        # the two prune_trace_* steps of the loop delete live events on
+        # purpose once an instance has that many evictions / service events;
+        # far above anything a population holds, and distinct
+        par['evict_max'] = draw(st.integers(1000, 1009))
+        par['svc_max'] = draw(st.integers(2000, 2009))
+        par['interval'] = draw(st.sampled_from([59, 61, 120]))
+    return par
+
+
+@st.composite
+def strategy(draw, tier=None):
+    driver = draw(st.booleans())
+    return {
+        'driver': driver,
+        'params': draw(_params(driver)),
+        'order_seed': draw(st.integers(0, 3)),
+        'instances': draw(_instances()),
+        'servers': draw(_servers()),
+        'history': draw(_history()),
+        'steps': draw(_steps()),
+    }
 
 
 def execute(case, stats):
@@ -259,6 +297,10 @@ def execute(case, stats):
             raise AssertionError('clean run left scratch files behind')
 
         stats.count('clean_runs')
+        stats.count('cases_via_click_command' if case.get('driver')
+                    else 'cases_via_direct_calls')
+        if case['params']['finished_expire'] < case['params']['trace_expire']:
+            stats.count('cases_finished_expiry_below_trace_expiry')
         stats.count('passes:%d' % (len(steps) + 1))
         stats.count('writes', writes)
         stats.count('records_before', len(world.events['trace']) +
@@ -428,5 +470,16 @@ def fixed_cases():
             {'op': 'unschedule', 'i': 0},
             {'op': 'event', 'i': 0, 'k': 5, 'v': 2, 'back': 0}]},
     ]
+    # the same populations through the real command line of the driver;
+    # batch 7 so that the two unexpired events of the unscheduled instances
+    # would complete a batch if the trace expiry were not honoured
+    drv = dict(base, driver=True)
+    drv['params'] = dict(base['params'], trace_batch=7, evict_max=1001,
+                         svc_max=2002, interval=61)
+    drv_multi = dict(multi, driver=True)
+    drv_multi['params'] = dict(multi['params'], evict_max=1003, svc_max=2005,
+                               interval=59)
     return [('aimed-mixed-batch5', base), ('aimed-batch1-max1', single),
-            ('aimed-three-passes-rewritten-finished', multi)]
+            ('aimed-three-passes-rewritten-finished', multi),
+            ('aimed-driver-mixed-batch7', drv),
+            ('aimed-driver-three-passes', drv_multi)]
